@@ -38,6 +38,10 @@ void UncompressedFile::read(char * s, std::streamsize n) {
         return;
     }
 
+    /* announce the amount of data needed, so that the buffer limit cannot starve this read */
+    m_readRequest = n;
+    tellgChanged.notify_all();
+
     /* wait until there is sufficient data */
     tellpChanged.wait(lock, [&] {
         return
@@ -45,6 +49,7 @@ void UncompressedFile::read(char * s, std::streamsize n) {
         (n + m_tellg <= m_tellp) ||
         (n + m_tellg > m_fileSize);
     });
+    m_readRequest = 0;
 
     /* handle read behind eof */
     if (n + m_tellg > m_fileSize) {
@@ -118,7 +123,8 @@ void UncompressedFile::write(const char * s, std::streamsize n) {
     tellgChanged.wait(lock, [&] {
         return
         m_abort ||
-        ((m_tellp - m_tellg) < m_bufferSize);
+        ((m_tellp - m_tellg) < m_bufferSize) ||
+        ((m_tellp - m_tellg) < m_readRequest);
     });
 
     /* write data */
@@ -211,7 +217,8 @@ void UncompressedFile::write(const std::shared_ptr<LogContainer> & logContainer)
     tellgChanged.wait(lock, [&] {
         return
         m_abort ||
-        ((m_tellp - m_tellg) < m_bufferSize);
+        ((m_tellp - m_tellg) < m_bufferSize) ||
+        ((m_tellp - m_tellg) < m_readRequest);
     });
 
     /* append logContainer */
